@@ -18,6 +18,8 @@ CLAIMED = {
  "C17": ("COMP: the real RawMessageFilter and state.State driven by receive/advance operation sequences (seeded long sequences, plus an exhaustive sweep of short ones) against a history checker written from the statement", "3 C17", SIM + ": component under the simulator's tape vs. executable reference checker of the recorded history"),
  "C15": ("COMP: the real context registry (state.ViewContexts) against a model under seeded For/CancelOlderThan/Shutdown sequences plus an exhaustive sweep of short sequences over a 2x3 (height, view) grid; RT: gated SPI calls on the real runtime observed against the model's watermark", "3 C15", SIM + ": component vs. reference model under the tape + gate observations on the real runtime"),
  "C19": ("COMP: the real TimerBasedElectionTrigger on the fake clock under seeded Register/Stop/advance/reader/hold interleavings (hook H3 holds fired timer goroutines); timeout function tabulated over 0..200 and boundary views", "3 C19", SIM + ": component on the simulated clock, trigger history vs. arming history"),
+ "C14": ("RT: the NET world with one focus node under worker-select control (hook H1), gated SPI calls and UpdateState bursts (older / previous / equal / newer blocks); every UpdateState must return by the next quiescent point and must have taken effect once the node is settled", "3 C14", SIM + ": post-quiescence state vs. sync history on the real two-goroutine runtime"),
+ "C16": ("RT with cancellation of the focus node injected at a generated step (idle, mid-prepare, inside blocked SPI calls, during election / sync, real timer armed, worker with several pending events): WaitUntilShutdown returns, API calls with the cancelled context return, nothing fires during 72 h of simulated time, and the bubble ends with no blocked goroutine", "3 C16", SIM + ": fault enumeration over cancellation points of generated runs; shutdown / leak / after-effects oracle"),
 }
 PLANNED = {
 }
